@@ -31,7 +31,7 @@ def to_py(t):
 
 # ---------------------------------------------------------------------------
 
-def check_clock(start, end, pre, post, acc):
+def check_clock(start, end, pre, post, acc, reuse=False):
     from qstrader.simulation.daily_bday import DailyBusinessDaySimulationEngine
     case = {'start': str(start), 'end': str(end), 'pre_market': pre, 'post_market': post}
     try:
@@ -63,6 +63,24 @@ def check_clock(start, end, pre, post, acc):
                                 % (g[0], g[1], w[0], w[1], case), case)
         raise Violation('C12', 'event-count', 'clock has %d events, expected %d for %s' % (len(got), len(want), case), case)
     acc.count('C12:ranges_checked')
+    if reuse and got:
+        # iteration is the observation point: a second pass over the same engine, and a pass after an abandoned
+        # one (peek at the first event, zip against a shorter list), must give the same events
+        again = [(to_py(e.ts), e.event_type) for e in eng]
+        if again != got:
+            raise Violation('C12', 're-iteration', 'a second pass over the same engine yields %d events, the first %d for %s'
+                            % (len(again), len(got), case), case)
+        eng2 = DailyBusinessDaySimulationEngine(pts(start), pts(end), pre_market=pre, post_market=post)
+        it = iter(eng2)
+        next(it)
+        if len(got) > 3:
+            next(it)
+        del it
+        after = [(to_py(e.ts), e.event_type) for e in eng2]
+        if after != want:
+            raise Violation('C12', 're-iteration/after-abandoned-pass', 'after an abandoned partial pass a full pass over the same '
+                            'engine yields %d events, expected %d for %s' % (len(after), len(want), case), case)
+        acc.count('C12:reiteration_checks')
     return got
 
 
@@ -86,7 +104,7 @@ def run_clock_case(case, acc):
     if case.get('reject'):
         check_reject(s, e, acc)
     else:
-        check_clock(s, e, case['pre_market'], case['post_market'], acc)
+        check_clock(s, e, case['pre_market'], case['post_market'], acc, reuse=True)
 
 
 def clock_signature(start, end, pre, post):
@@ -113,7 +131,7 @@ def shard_c12(spec, acc):
                 for pre in (False, True):
                     for post in (False, True):
                         try:
-                            check_clock(start, end, pre, post, acc)
+                            check_clock(start, end, pre, post, acc, reuse=(n % 9 == 4))
                         except Violation as v:
                             acc.violation(v, {'kind': 'clock', **v.witness})
                         acc.evaluations += 1
@@ -130,7 +148,7 @@ def shard_c12(spec, acc):
         start, end = random_range(rng)
         pre, post = rng.random() < 0.5, rng.random() < 0.5
         try:
-            check_clock(start, end, pre, post, acc)
+            check_clock(start, end, pre, post, acc, reuse=True)
             if end > start:
                 check_reject(end, start, acc)
         except Violation as v:
@@ -257,10 +275,54 @@ def all_schedules(start, end, acc, rng=None, full=True):
     return n + 1
 
 
+class _NoData(object):
+    """Stand-in data handler: constructing a session never reads prices."""
+
+
+def build_session_with_burn_in(start, end, kind, weekday, rng):
+    """A BacktestTradingSession over the same range, with a burn-in inside it (construction only, never run)."""
+    from qstrader.trading.backtest import BacktestTradingSession
+    from qstrader.asset.universe.static import StaticUniverse
+    from qstrader.alpha_model.fixed_signals import FixedSignalsAlphaModel
+    span = end - start
+    burn = start + span * rng.choice([0.3, 0.5, 0.8])
+    kw = {'rebalance_weekday': weekday} if kind == 'weekly' else {}
+    return BacktestTradingSession(pts(start), pts(end), StaticUniverse(['EQ:AAA']), FixedSignalsAlphaModel({'EQ:AAA': 1.0}),
+                                  rebalance=kind, long_only=True, cash_buffer_percentage=0.05, burn_in_dt=pts(burn),
+                                  data_handler=_NoData(), **kw)
+
+
+def schedules_survive_sessions(start, end, acc, rng):
+    """
+    Schedules are values of (start, end, parameters) only: building trading sessions (with a burn-in) over the same
+    range in the same process must not change what a schedule built afterwards contains.
+    """
+    cs = clock_instants(start, end)
+    for kind, wd in (('weekly', rng.choice(cal.WEEKDAYS)), ('daily', None), ('end_of_month', None)):
+        check_schedule(kind, start, end, wd, False, cs, acc)
+        try:
+            build_session_with_burn_in(start, end, kind, wd, rng)
+        except Exception as e:
+            if core.from_repo(e):
+                raise Violation('C13', 'session-construction-raised/%s' % type(e).__name__,
+                                'building a session over %s .. %s (%s) raised %r' % (start, end, kind, e),
+                                {'kind': kind, 'start': str(start), 'end': str(end), 'weekday': wd, 'pre_market': False})
+            raise
+        try:
+            check_schedule(kind, start, end, wd, False, cs, acc)
+        except Violation as v:
+            raise Violation('C13', 'after-session/' + v.key, 'after a session with a burn-in over the same range was built in this '
+                            'process: ' + v.msg, dict(v.witness, after_session=True))
+        acc.count('C13:after_session_checks')
+
+
 def run_sched_case(case, acc):
     s = dt.datetime.fromisoformat(case['start'])
     e = dt.datetime.fromisoformat(case['end'])
-    if case['kind'] == 'bad-weekday':
+    if case.get('after_session'):
+        import random as _r
+        schedules_survive_sessions(s, e, acc, _r.Random(0))
+    elif case['kind'] == 'bad-weekday':
         check_bad_weekday(case['weekday'], s, e, acc)
     else:
         cs = clock_instants(s, e) if case['kind'] != 'buy_and_hold' else None
@@ -299,8 +361,10 @@ def shard_c13(spec, acc):
         try:
             k = all_schedules(start, end, acc)
             acc.evaluations += k
-            bad = rng.choice(['SAT', 'SUN', '', 'WEDS', 'sat', 'Monday', 'XYZ'])
+            bad = rng.choice(['SAT', 'SUN', '', 'WEDS', 'sat', 'Monday', 'XYZ', 'MONTHLY', 'FRIDGE', 'mon1', 'WED,FRI', ' TUE'])
             check_bad_weekday(bad, start, end, acc)
+            if (end - start).days >= 10:
+                schedules_survive_sessions(start, end, acc, rng)
         except Violation as v:
             acc.violation(v, v.witness)
             acc.evaluations += 1
